@@ -110,3 +110,19 @@ var _ I__str__ = Bool(false)
 var _ I__repr__ = Bool(false)
 var _ I__eq__ = Bool(false)
 var _ I__ne__ = Bool(false)
+
+// BoolNew implements bool(x): the truth value of x, False if x is omitted
+func BoolNew(metatype *Type, args Tuple, kwargs StringDict) (Object, error) {
+	var x Object = False
+	err := UnpackTuple(args, kwargs, "bool", 0, 1, &x)
+	if err != nil {
+		return nil, err
+	}
+	return MakeBool(x)
+}
+
+func init() {
+	// set here rather than in the BoolType initialiser to avoid an
+	// initialisation cycle
+	BoolType.New = BoolNew
+}
